@@ -630,6 +630,8 @@ fn oracle(c: &C32Case, h: &Hist, res: &mut CaseResult) {
     let mut fails: Vec<(String, String)> = vec![];
     // ---- trigger values read back after every operation
     let (mut definite, mut uncertain) = (0u32, 0u32);
+    // conditions whose trigger value disagreed with the model somewhere in this case
+    let mut bad_conds: BTreeSet<u8> = BTreeSet::new();
     for (idx, (t, ev)) in h.events.iter().enumerate() {
         let Ev::Check { values } = ev else { continue };
         let at = stamp(*t, idx);
@@ -645,6 +647,7 @@ fn oracle(c: &C32Case, h: &Hist, res: &mut CaseResult) {
                 Tri::U => uncertain += 1,
                 Tri::T if !*v => {
                     definite += 1;
+                    bad_conds.insert(i as u8);
                     let sts: Vec<&str> = ent.statuses().iter().filter(|s| mask & s.bit() != 0 && m.flag(ent, **s, at) == Tri::T).map(|s| s.name()).collect();
                     fails.push((
                         format!("C32:trigger-value:{}:false-although-enabled-status-changed", ent.name()),
@@ -653,6 +656,7 @@ fn oracle(c: &C32Case, h: &Hist, res: &mut CaseResult) {
                 }
                 Tri::F if *v => {
                     definite += 1;
+                    bad_conds.insert(i as u8);
                     let earlier: Vec<&str> = ent
                         .statuses()
                         .iter()
@@ -686,6 +690,11 @@ fn oracle(c: &C32Case, h: &Hist, res: &mut CaseResult) {
     let mut pending_when_changed = false;
     for w in &h.waits {
         let attached: &Vec<u8> = &c.waitsets[w.ws as usize];
+        if attached.iter().any(|i| bad_conds.contains(i)) {
+            // the trigger value itself is wrong (reported above); how wait reacts to it is a consequence
+            res.class("wait_not_judged_trigger_value_wrong");
+            continue;
+        }
         let s = stamp(w.start_ns, w.start_idx);
         let deadline_ns = w.start_ns + w.timeout_ms as u64 * MS;
         let deadline = stamp(deadline_ns, 0);
@@ -713,6 +722,7 @@ fn oracle(c: &C32Case, h: &Hist, res: &mut CaseResult) {
         // at the instant the stretch begins (virtual time only advances when every runnable task, including
         // a notified waiter, has run to completion)
         let mut must_by: Option<Stamp> = None;
+        let mut run_start: Option<Stamp> = None;
         for (k, (p, mid)) in points.iter().enumerate() {
             if !*mid || *p <= s || *p >= deadline {
                 continue;
@@ -720,10 +730,13 @@ fn oracle(c: &C32Case, h: &Hist, res: &mut CaseResult) {
             if any(*p) == Tri::T {
                 let start = points[..k].iter().rev().find(|x| !x.1).map(|x| x.0).unwrap_or(s).max(s);
                 let stop = points[k + 1..].iter().find(|x| !x.1).map(|x| x.0).unwrap_or(deadline).min(deadline);
-                if ns_of(stop) > ns_of(start) {
-                    must_by = Some(start);
+                let from = *run_start.get_or_insert(start);
+                if ns_of(stop) > ns_of(from) {
+                    must_by = Some(from);
                     break;
                 }
+            } else {
+                run_start = None;
             }
         }
         let what_wait = format!(
